@@ -614,6 +614,22 @@ func runC10(env *lib.Env, rep *lib.Report) {
 			g.id("m")
 			return sql.DerivedColumn{ValueExpressionPrimary: sql.Average{ValueExpression: cr("t", "v")}, AsClause: "m"}
 		}},
+		// (each function also with the other spelling of its argument: qualified for COUNT, unqualified for AVG)
+		{"count-qualified", func(g *gen) sql.DerivedColumn {
+			g.kw("COUNT")
+			g.p("(")
+			g.colref(cr("t", "v"))
+			g.p(")")
+			g.id("n")
+			return sql.DerivedColumn{ValueExpressionPrimary: sql.Count{ValueExpression: cr("t", "v")}, AsClause: "n"}
+		}},
+		{"avg-unqualified", func(g *gen) sql.DerivedColumn {
+			g.kw("AVG")
+			g.p("(")
+			g.colref(cr("", "w"))
+			g.p(")")
+			return sql.DerivedColumn{ValueExpressionPrimary: sql.Average{ValueExpression: cr("", "w")}}
+		}},
 	}
 	groupKeys := map[int][]sql.ColumnReference{0: {cr("", "g")}, 1: {cr("", "h")}, 2: {cr("t", "g"), cr("", "g")}, 3: {cr("", "gg"), cr("", "g")}}
 	for a := range aggItems {
